@@ -38,6 +38,9 @@ def showOptZ : Option StampZ → String
   | none => "err:nonterm"
   | some t => showStampZ t ++ " " ++ showFloat (toAbsG t : Float)
 
+/-- `toAbsTime` indexes `__day_per_month[m - 1]` for `m < month`: an IndexError from month 14 on -/
+def absErr (ts : List StampZ) (k : String) : String := if ts.any (·.month > 13) then "err:index" else k
+
 def stampZ? (l : List String) : Option (StampZ × List String) :=
   match l with
   | y :: m :: d :: h :: mi :: s :: ms :: rest =>
@@ -59,11 +62,11 @@ def handleF (cmd : String) (args : List String) : Option String :=
   | "readf", [x] => (float? x).map fun x => showOptZ (readF x)
   | "absf", _ =>
     match stampZ? args with
-    | some (t, []) => some (showFloat (toAbsG t : Float))
+    | some (t, []) => some (absErr [t] (showFloat (toAbsG t : Float)))
     | _ => none
   | "rtf", _ =>
     match stampZ? args with
-    | some (t, []) => let a : Float := toAbsG t; some (showFloat a ++ " " ++ showOptZ (readF a))
+    | some (t, []) => let a : Float := toAbsG t; some (absErr [t] (showFloat a ++ " " ++ showOptZ (readF a)))
     | _ => none
   | "addf", _ =>
     match stampZ? args with
@@ -73,10 +76,10 @@ def handleF (cmd : String) (args : List String) : Option String :=
       | some nb =>
         let a : Float := toAbsG t
         match unit with
-        | "sec" => some (showOptZ (readF (a + nb)))
-        | "min" => some (showOptZ (readF (a + nb * ((60 : Int) : Float))))
-        | "hour" => some (showOptZ (readF (a + nb * ((3600 : Int) : Float))))
-        | "day" => some (showOptZ (readF (a + nb * ((86400 : Int) : Float))))
+        | "sec" => some (absErr [t] (showOptZ (readF (a + nb))))
+        | "min" => some (absErr [t] (showOptZ (readF (a + nb * ((60 : Int) : Float)))))
+        | "hour" => some (absErr [t] (showOptZ (readF (a + nb * ((3600 : Int) : Float)))))
+        | "day" => some (absErr [t] (showOptZ (readF (a + nb * ((86400 : Int) : Float)))))
         | _ => none
     | _ => none
   | "cmpf", [x, y] =>
@@ -90,7 +93,7 @@ def handleF (cmd : String) (args : List String) : Option String :=
     match stampZ? args with
     | some (a, rest) =>
       match stampZ? rest with
-      | some (b, []) => some (showFloat (subG a b : Float))
+      | some (b, []) => some (absErr [a, b] (showFloat (subG a b : Float)))
       | _ => none
     | none => none
   | "default", [] => some (showStampZ defaultZ)
